@@ -3,6 +3,8 @@
 use crate::kit::report::Report;
 use crate::kit::runner::{Ctx, Sub};
 
+pub mod c02;
+pub mod c03;
 pub mod c16;
 
 pub struct PropDef {
@@ -15,6 +17,8 @@ pub struct PropDef {
 
 pub fn get(id: &str) -> Option<PropDef> {
     match id {
+        "C02" => Some(c02::def()),
+        "C03" => Some(c03::def()),
         "C16" => Some(c16::def()),
         _ => None,
     }
